@@ -618,6 +618,7 @@ impl Vt100 {
 /// scrolls at the bottom row, cursor-up/down clamp to the visible screen, CR + erase-line for
 /// clear_line) and unlimited scroll-back.  It mirrors coq/model/Term.v; `bin/termcheck.rs`
 /// cross-validates it against the vt100 crate on the visible screen and cursor.
+#[derive(Clone)]
 pub struct Vt {
     pub w: usize,
     pub h: usize,
@@ -821,18 +822,18 @@ pub fn gen_gap(r: &mut Rng) -> u64 {
     ])
 }
 
-/// lines written by the closure passed to suspend: non-empty (an EMPTY line written by foreign code
-/// directly after a text-only draw only resolves the pending wrap at the right edge - terminal
-/// semantics, see DESIGN.md; indicatif's own empty lines are padded and do get their row)
+/// lines written by the closure passed to suspend: any complete lines, EMPTY ones included (also as
+/// the first line: an empty first line written while the cursor is wrap-pending after a text-only
+/// draw only resolves the pending wrap - open finding 'empty-line-after-text-only-draw-swallowed',
+/// Coq: C01_empty_line_swallowed_refuted; the oracles classify it)
 pub fn gen_suspend_lines(r: &mut Rng, w: usize) -> Vec<String> {
-    let k = r.below(3) as usize;
+    let k = r.below(4) as usize;
     (0..k)
         .map(|_| {
-            let t = gen_width_text(r, w);
-            if t.is_empty() {
-                "x".to_string()
+            if r.chance(1, 4) {
+                String::new()
             } else {
-                t
+                gen_width_text(r, w)
             }
         })
         .collect()
